@@ -107,6 +107,11 @@ def _cases(tier):
             for op in ("==", "in", "[k]"):
                 cases.append({"reeval": "twins", "a": a, "b": b, "wrap": wrap, "op": op})
                 cases.append({"reeval": "twins", "a": b, "b": a, "wrap": wrap, "op": op})
+    # one object that grows between the evaluations of one call site: every state it was compared in counts
+    for op in GROWING:
+        for prev in (True, False):
+            for F in ([], ["trim"], ["create", "fix", "trim", "update"], ["create"]):
+                cases.append({"reeval": "growing", "op": op, "prev": prev, "F": F})
     # the argument is an expression that yields the same (long-lived) object each time, modified in place between evaluations
     for op in ("==", "<=", "[k]"):
         for arg in ("ROW", "[ROW, 'end']", "{'k': ROW}", "(ROW, 1)", "DCR(x=ROW)", "[[ROW]]", "TABLE", "TABLE['cols']"):
@@ -308,6 +313,8 @@ def _judge_reeval(c):
 
     if "mutarg" in c:
         return _judge_reeval_mut(c)
+    if c["reeval"] == "growing":
+        return _judge_growing(c)
     if c["reeval"] == "handles":
         return _judge_handles(c)
     if c["reeval"] == "wrapped":
@@ -459,6 +466,40 @@ def _judge_handles(c):
         return [("written-argument-not-evaluable", str(e))], ctx
     if got != fold:
         return [("site-aggregate-differs", "handles %s, comparisons %s %s: written %r, per-key fold %r" % (keys, op, seq, got, fold))], ctx
+    return [None], ctx
+
+
+GROWING = {  # op: (comparison with the growing list p (state number i), aggregate over the states [1], [1, 2], [1, 2, 3])
+    "in": ("assert p in snapshot(%s)", "[[1], [1, 2], [1, 2, 3]]"),
+    "<=": ("assert p <= snapshot(%s)", "[1, 2, 3]"),
+    ">=": ("assert p >= snapshot(%s)", "[1]"),
+    "[k]": ("assert snapshot(%s)[i] == p", "{1: [1], 2: [1, 2], 3: [1, 2, 3]}"),
+    "[k]in": ("assert p in snapshot(%s)['k']", "{'k': [[1], [1, 2], [1, 2, 3]]}"),
+}
+
+
+def _judge_growing(c):
+    from ..drivers.inline import run_inline
+    from ..oracles.locate import snapshot_calls
+
+    stmt, agg = GROWING[c["op"]]
+    src = "from inline_snapshot import snapshot\n\n\ndef test_0():\n    p = []\n    for i in (1, 2, 3):\n        p.append(i)\n        %s\n    p.append(9)\n" % (stmt % (agg if c["prev"] else ""))
+    ctx = {"src": src}
+    r = run_inline({"test_something.py": src}, c["F"])
+    if r["error"]:
+        return [("internal-error", r["error"]["type"] + ": " + r["error"]["msg"][:200])], ctx
+    after = r["files"].get("test_something.py", src)
+    ctx["after"] = after
+    txt = snapshot_calls(after)[0]["arg_text"].strip()
+    if c["prev"]:
+        # every state is a member / the bound is tight / every key was read: nothing is pending whatever is approved
+        if after != src or set(r["reported"] or []) - {"update"}:
+            return [("site-aggregate-differs", "all states of the object were compared and are in the snapshot, flags %s: reported %s, argument now %s" % (c["F"], r["reported"], txt))], ctx
+    elif "create" in c["F"]:
+        if repr(eval(txt or "None", {})) != repr(eval(agg, {})):
+            return [("site-aggregate-differs", "created %s, the states compared give %s" % (txt, agg))], ctx
+    elif after != src:
+        return [("changed-without-approval", txt)], ctx
     return [None], ctx
 
 
